@@ -1,6 +1,7 @@
 """C20: only explicit metadata loads ever name a topic (or a partition of a known topic) the client has not loaded."""
 import kproto
 from val import T, dumps
+from props import common
 from props.common import brokers, fp, pm
 from props.c06 import replay_merge
 from props.c12 import xxh32
@@ -33,7 +34,7 @@ def cluster_spec(rng):
         for p in range(len(ls)):
             if rng.random() < 0.5:
                 logs[(t, p)] = [("plain", o, None, b"m%d" % o) for o in range(rng.randint(1, 3))]
-    return {"brokers": brokers(nb), "topics": topics, "logs": logs}
+    return common.maybe_order(rng, {"brokers": brokers(nb), "topics": topics, "logs": logs})
 
 
 def hosts_of(spec):
